@@ -48,6 +48,11 @@ void Ctx::c05() {
                 if (d && d->seq < m.seq) continue;           // already complete
                 if (!d) continue;                             // never_completed covers it
                 if (resolve_pending) continue;     // a running resolve cannot be cancelled (real resolver likewise); whatever waits behind it is late
+                {   // ... including a resolve that the winding-down reconnect loop still starts (endpoints.hpp does not look at is_open())
+                    bool behind_resolve = false;
+                    for (auto& r : s.resolver.log) if (r.seq >= m.seq && r.seq <= d->seq) behind_resolve = true;
+                    if (behind_resolve) continue;
+                }
                 if (d->t > limit_t + slack) {
                     fail("C05", m.kind == MarkKind::cancel_client ? "cancel_not_prompt" : "disconnect_leaves_ops",
                          opstr(o) + " outstanding at " + (m.kind == MarkKind::cancel_client ? "cancel()" : "async_disconnect") + " (t=" +
@@ -134,6 +139,7 @@ void Ctx::c02() {
                         auto& ca = s.broker.sent[bc->connack_sent_idx];
                         if (!ca.delivered_seq || ca.delivered_seq > d->seq) continue;  // op completed before this connection was up
                         if (nc.fault_injected || bc->hostile_touched) continue;
+                        if (other_gen_active(o.svc_gen, nc.seq_begin) || other_gen_active(o.svc_gen, nc.seq_established)) continue;   // may be another service object's connection
                         // did the client send anything after the handshake here?
                         bool sent_any = false, present = false;
                         for (int ri : recv_by_conn[ci]) {
